@@ -424,12 +424,25 @@ func c13Big(c *Ctx) {
 	Flags{}.Apply()
 	form := regexp.MustCompile("^REDACTED_[0-9a-f]{16}$")
 	vals := make([]uint64, total)
-	rev := c.Shard%2 == 1
+	// every worker has its own order: shard 0 ascending, shard 1 descending, the others strided by a prime that does
+	// not divide the size (a permutation), so that what is resident in any bounded table differs from worker to worker
+	strides := []int{1, 1, 7919, 104729, 1299709, 15485863, 32452843, 49979687, 67867967, 86028121, 104395301, 122949823, 141650939, 160481183, 179424673, 198491317}
+	stride := strides[c.Shard%len(strides)]
+	for total%stride == 0 && stride > 1 {
+		stride += 2
+	}
 	at := func(k int) int {
-		if rev {
+		switch {
+		case c.Shard%len(strides) == 1:
 			return total - 1 - k
+		case stride == 1:
+			return k
 		}
-		return k
+		return int((int64(k)*int64(stride) + int64(c.Shard)) % int64(total))
+	}
+	if gcd(stride, total) != 1 {
+		c.HarnessError("C13: stride %d is not coprime with %d", stride, total)
+		return
 	}
 	for k := 0; k < total; k++ {
 		i := at(k)
@@ -477,6 +490,13 @@ func c13Big(c *Ctx) {
 	if c.Shard == 0 {
 		c.Distinct("big-dictionary")
 	}
+}
+
+func gcd(a, b int) int {
+	for b != 0 {
+		a, b = b, a%b
+	}
+	return a
 }
 
 func jget(n *JNode, key string) *JNode {
